@@ -44,6 +44,10 @@ def main():
         m = json.load(open(mf))
         for pid in m.get("checks", {m.get("property"): 0}):
             quiet.append((pid, os.path.join(os.path.dirname(mf), "patch.diff")))
+    import re
+    rx = re.compile(os.environ.get("SELFTEST_MATCH", "."))       # restrict to patches whose path matches (e.g. 'benign/' or 'seeded/C..c-')
+    items = [(pid, f) for pid, f in items if rx.search(f)]
+    quiet = [(pid, f) for pid, f in quiet if rx.search(f)]
     jobs = int(os.environ.get("SELFTEST_JOBS", "3"))
     todo = [(pid, f, 1) for pid, f in items if not want or pid in want] + [(pid, f, 0) for pid, f in quiet if not want or pid in want]
     from concurrent.futures import ThreadPoolExecutor
